@@ -347,8 +347,10 @@ pub fn c07(tier: Tier, seed: u64) -> i32 {
     );
     let mut acc = acc;
     acc.merge(directed_position_of_a_twin_pool(seed ^ 0x7717, &mut C07::default()));
+    acc.merge(c07_settle_where_nobody_is(seed ^ 0x7707));
     rep.acc = acc;
     rep.floor("twin_pool_position_attempts", 14);
+    rep.floor("directed_settlements_at_a_price_without_liquidity", 10);
     rep.floor("position_settlements", 3000);
     rep.floor("position_settlements_with_earned_fees", 500);
     rep.floor("accrual_steps", 5000);
@@ -364,12 +366,13 @@ pub fn c12(tier: Tier, seed: u64) -> i32 {
     let acc = run_histories(
         seed,
         per_shard,
-        move |_r| HistCfg { delegates: true, ops: 130, spl_only: false, allow_transfer_fee: true, allow_adaptive: true, seed_growth: true, lifecycle_ext: true, w_swap: 28, w_liq: 46, w_fees: 6, w_lifecycle: 8, w_clock: 6, w_setters: 2, w_reward: 9, ..Default::default() },
+        move |_r| HistCfg { delegates: true, idle_hooks: true, ops: 130, spl_only: false, allow_transfer_fee: true, allow_adaptive: true, seed_growth: true, lifecycle_ext: true, w_swap: 28, w_liq: 46, w_fees: 6, w_lifecycle: 8, w_clock: 6, w_setters: 2, w_reward: 9, ..Default::default() },
         || vec![Box::new(C12::default()) as Box<dyn Monitor>],
     );
     rep.acc = acc;
     rep.floor("fn_diff_both_ok", 10_000);
     rep.floor("fn_diff_both_err", 2_000);
+    rep.floor("route_pairs_on_idle_hook_mints_both_ok", 100);
     rep.floor("route_pairs_both_ok", 2_000);
     rep.floor("route_pairs_both_err", 200);
     rep.floor("routing_observed", 3_000);
@@ -438,6 +441,8 @@ pub fn c11(tier: Tier, seed: u64) -> i32 {
         || vec![Box::new(C11::default()) as Box<dyn Monitor>],
     );
     rep.acc = acc;
+    rep.acc.merge(c11_overflow_then_later_rewards(seed));
+    rep.floor("directed_overflow_intervals_with_later_rewards", 8);
     rep.floor("reward_intervals_emitting", 2000);
     rep.floor("position_settlements_with_earned_rewards", 500);
     rep.floor("reward_collections", 300);
@@ -446,6 +451,154 @@ pub fn c11(tier: Tier, seed: u64) -> i32 {
     rep.floor("funding_probes", 300);
     rep.floor("earlier_timestamp_attempts", 50);
     rep.finish()
+}
+
+/// Directed fee scenario: a lone position earns fees from trades in both directions, then a trade carries the price out
+/// of its range - to where the pool has no liquidity at all - and only THEN the position is settled (fee-and-reward
+/// update, fee collection, a withdrawal, a deposit). What it earned while in range is still owed to it; the C07 ledger
+/// judges what the settlement credits.
+fn c07_settle_where_nobody_is(seed: u64) -> Acc {
+    use crate::monitors::c07::C07;
+    use crate::world::*;
+    use whirlpool::math::sqrt_price_from_tick_index;
+    let mut acc = Acc::default();
+    for leave_downwards in [true, false] {
+        for settle in 0..4usize {
+            for dynamic in [true, false] {
+                let mut mon = C07::default();
+                let mut w = World::new(crate::rnd::rng(seed ^ (settle as u64) << 3 ^ (leave_downwards as u64) << 1 ^ dynamic as u64));
+                let c = w.add_config(300);
+                let u = w.add_user();
+                let (m1, m2) = (w.add_spl_mint(6), w.add_spl_mint(6));
+                let Ok(p) = w.add_pool(c, m1, m2, 64, 3000, 1u128 << 64, settle % 2 == 0) else {
+                    acc.count("harness_errors");
+                    continue;
+                };
+                let mut run = |w: &mut World, ix: crate::ix::Ix, acc: &mut Acc, mon: &mut C07| -> bool {
+                    let o = w.exec(ix);
+                    acc.evaluations += 1;
+                    crate::hist::Monitor::after(mon, w, &o, acc);
+                    o.ok()
+                };
+                w.ensure_tick_array(p, -128, dynamic);
+                w.ensure_tick_array(p, 128, dynamic);
+                let (ix, info) = w.open_position_ix(p, u, -128, 128, dynamic);
+                let mut ok = run(&mut w, ix, &mut acc, &mut mon);
+                w.positions.push(info.clone());
+                let i = w.positions.len() - 1;
+                let ix = w.modify_v2(i).increase_liquidity_v2(1_000_000_000 + (seed % 1000) as u128, u64::MAX, u64::MAX, None);
+                ok &= run(&mut w, ix, &mut acc, &mut mon);
+                for a_to_b in [true, false, true] {
+                    let ix = w.swap_ix(p, u, 200_000 + (seed % 777), 0, 0, true, a_to_b, dynamic);
+                    ok &= run(&mut w, ix, &mut acc, &mut mon);
+                }
+                // out of the range and on to tick +-1000, where nobody provides liquidity
+                let limit = sqrt_price_from_tick_index(if leave_downwards { -1000 } else { 1000 });
+                let ix = w.swap_ix(p, u, u64::MAX / 4, 0, limit, true, leave_downwards, !dynamic);
+                ok &= run(&mut w, ix, &mut acc, &mut mon);
+                let empty = w.pool_state(p).liquidity == 0;
+                let ix = match settle {
+                    0 => w.update_fees_ix(i),
+                    1 => w.collect_fees_ix(i, dynamic),
+                    2 => w.modify_v1(i).decrease_liquidity(1_000, 0, 0),
+                    _ => w.modify_v2(i).increase_liquidity_v2(1_000, u64::MAX, u64::MAX, None),
+                };
+                let settled = run(&mut w, ix, &mut acc, &mut mon);
+                let ix = w.update_fees_ix(i);
+                run(&mut w, ix, &mut acc, &mut mon);
+                let ix = w.collect_fees_ix(i, !dynamic);
+                run(&mut w, ix, &mut acc, &mut mon);
+                acc.situation(format!("directed_settlement:downwards_{leave_downwards}:kind_{settle}:dynamic_{dynamic}:{settled}:{empty}"));
+                if ok && empty && (settled || settle == 1) {
+                    acc.count("directed_settlements_at_a_price_without_liquidity");
+                } else {
+                    acc.notes.push(format!("directed settlement scenario (downwards {leave_downwards}, kind {settle}, dynamic {dynamic}) did not reach its point: steps ok={ok}, pool empty={empty}, settlement ok={settled}"));
+                }
+            }
+        }
+    }
+    acc
+}
+
+/// Directed reward scenario: one reward emits so fast that `elapsed x rate` leaves 128 bits once more than a day has
+/// passed (the program then drops that interval for THAT reward only), while the rewards behind and in front of it
+/// emit normally. The interval is crossed by each kind of instruction that advances the reward clock (both swaps,
+/// an emissions change of another slot, a fee-and-reward update, a deposit); afterwards everything is settled and
+/// collected, and the C11 ledger judges what each reward credited.
+fn c11_overflow_then_later_rewards(seed: u64) -> Acc {
+    use crate::monitors::c11::C11;
+    use crate::world::*;
+    let mut acc = Acc::default();
+    for fast in 0..2u8 {
+        for crossing in 0..5usize {
+            let mut mon = C11::default();
+            let mut w = World::new(crate::rnd::rng(seed ^ 0xC11 ^ (fast as u64) << 8 ^ (crossing as u64) << 12));
+            let c = w.add_config(300);
+            let u = w.add_user();
+            let (m1, m2) = (w.add_spl_mint(6), w.add_spl_mint(6));
+            let Ok(p) = w.add_pool(c, m1, m2, 64, 3000, 1u128 << 64, crossing % 2 == 0) else {
+                acc.count("harness_errors");
+                continue;
+            };
+            let mut run = |w: &mut World, ix: crate::ix::Ix, acc: &mut Acc, mon: &mut C11| -> bool {
+                let o = w.exec(ix);
+                acc.evaluations += 1;
+                crate::hist::Monitor::after(mon, w, &o, acc);
+                o.ok()
+            };
+            let mut ok = true;
+            for k in 0..3u8 {
+                let mint = w.add_spl_mint(6);
+                let (ix, vault) = w.init_reward_ix(p, k, mint);
+                ok &= run(&mut w, ix, &mut acc, &mut mon);
+                w.set_token_balance(vault, if k == fast { u64::MAX } else { 1_000_000_000_000_000 });
+                w.pools[p].rewards.push((mint, vault));
+            }
+            w.ensure_tick_array(p, -128, crossing % 2 == 0);
+            w.ensure_tick_array(p, 128, crossing % 2 == 0);
+            let (ix, info) = w.open_position_ix(p, u, -128, 128, fast == 0);
+            ok &= run(&mut w, ix, &mut acc, &mut mon);
+            w.positions.push(info.clone());
+            let i = w.positions.len() - 1;
+            let ix = w.modify_v2(i).increase_liquidity_v2(1_000_000, u64::MAX, u64::MAX, None);
+            ok &= run(&mut w, ix, &mut acc, &mut mon);
+            for k in 0..3u8 {
+                // the fast one: the largest rate a vault holding 2^64 - 1 can fund for a day
+                let e = if k == fast { ((u64::MAX as u128) << 64) / 86_400 - (seed as u128 % 1000) } else { (k as u128 + 1) << 64 };
+                let ix = w.set_emissions_ix(p, k, e);
+                ok &= run(&mut w, ix, &mut acc, &mut mon);
+            }
+            w.advance_clock(100);
+            let ix = w.swap_ix(p, u, 5_000, 0, 0, true, true, true);
+            ok &= run(&mut w, ix, &mut acc, &mut mon);
+            // more than a day: elapsed x rate of the fast reward no longer fits 128 bits
+            w.advance_clock(86_400 + 1_000 + (seed % 5_000) as i64);
+            let before = acc.get("reward_intervals_dropped_by_overflow");
+            let ix = match crossing {
+                0 => w.swap_ix(p, u, 4_000, 0, 0, true, false, false),
+                1 => w.swap_ix(p, u, 4_000, 0, 0, true, false, true),
+                2 => w.set_emissions_ix(p, 2 - fast, 5u128 << 64),
+                3 => w.update_fees_ix(i),
+                _ => w.modify_v1(i).increase_liquidity(500_000, u64::MAX, u64::MAX),
+            };
+            let crossed = run(&mut w, ix, &mut acc, &mut mon);
+            let dropped = acc.get("reward_intervals_dropped_by_overflow") > before;
+            w.advance_clock(10);
+            let ix = w.update_fees_ix(i);
+            ok &= run(&mut w, ix, &mut acc, &mut mon);
+            for k in 0..3u8 {
+                let ix = w.collect_reward_ix(i, k);
+                run(&mut w, ix, &mut acc, &mut mon);
+            }
+            acc.situation(format!("directed_overflow:fast_reward_{fast}:crossing_{crossing}:{crossed}:{dropped}"));
+            if ok && crossed && dropped {
+                acc.count("directed_overflow_intervals_with_later_rewards");
+            } else {
+                acc.notes.push(format!("directed overflow scenario (fast reward {fast}, crossing {crossing}) did not reach its point: set-up ok={ok}, crossing ok={crossed}, interval dropped={dropped}"));
+            }
+        }
+    }
+    acc
 }
 
 /// Directed adaptive-fee scenarios the random workload practically never produces: swaps over empty pools
@@ -630,6 +783,7 @@ pub fn c14(tier: Tier, seed: u64) -> i32 {
     rep.acc = acc;
     rep.floor("directed_far_jumps", 8);
     rep.floor("directed_inside_tick_stops", 12);
+    rep.floor("adaptive_setups_compared_with_the_request", 200);
     rep.floor("adaptive_swaps", 3000);
     rep.floor("adaptive_steps_checked", 5000);
     rep.floor("reference_class_filter", 300);
